@@ -12,6 +12,12 @@
                    else stands for that character; a % that ends the text stays
      quotes        are copied; they only switch the rules above
      `..`          outside single quotes: runs a command (outside this specification)
+     %exec(cmd)    what the command printed (an answer of the outside world), up to its first
+                   NUL byte, runs of white space condensed to one blank, no blank at the end;
+                   nothing if the command printed nothing or could not be run
+     %dirscan(d)   exactly one word: the names of the regular files of directory d (an answer
+                   of the outside world, in the order readdir reports them), each followed by
+                   a blank, as long as name, blank and terminator fit the line buffer
 
    Definitions only; the theorems are in ExpandSpecProofs.v. *)
 From LV Require Export Expand.ExpandModel.
@@ -99,9 +105,60 @@ Definition env_ref (t : list byte) : list byte * list byte :=
   end.
 
 (* ---------- the built-ins on byte lists ---------- *)
+(* the text before the first NUL *)
+Fixpoint cut0 (l : list byte) : list byte :=
+  match l with
+  | [] => []
+  | c :: t => if c =? 0 then [] else c :: cut0 t
+  end.
+
+(* %dirscan: acc is the list so far, n the room left in the CONFIG_BUFF block (terminator included):
+   a name is appended with its blank when name, blank and terminator fit; the scan ends when less
+   than two bytes are left *)
+Fixpoint dir_join (names : list (list byte)) (acc : list byte) (n : Z) {struct names} : list byte :=
+  match names with
+  | [] => acc
+  | nm :: t =>
+    let len := Z.of_nat (length nm) in
+    if len + 1 <? n then
+      (if n - (len + 1) <? 2 then acc ++ nm ++ [32] else dir_join t (acc ++ nm ++ [32]) (n - (len + 1)))
+    else if n <? 2 then acc else dir_join t acc n
+  end.
+
 Section Spec.
 Variable genv : list byte -> option (list byte).
 Variable progname progver : list byte.
+Variable exec_out : list byte -> exec_answer.
+Variable dir_list : list byte -> dir_answer.
+
+(* %exec(command) *)
+Definition s_exec (a : option (list byte)) : bres :=
+  match a with
+  | None => BNull
+  | Some cmd =>
+    match exec_out cmd with
+    | ExecNotFollowed => BExt Spawn
+    | ExecRefused => BNull
+    | ExecOut [] => BNull
+    | ExecOut content => BStr (condense_spec (cut0 content))
+    end
+  end.
+
+(* %dirscan(directory) *)
+Definition s_dirscan (a : option (list byte)) : bres :=
+  match a with
+  | None => BNull
+  | Some a =>
+    match words a with
+    | [d] =>
+      match dir_list d with
+      | DirNotFollowed => BExt Dirscan
+      | DirFail => BNull
+      | DirList names => BStr (dir_join names [] config_buff)
+      end
+    | _ => BNull
+    end
+  end.
 
 (* %get(name [default]): more than two words is an error (nothing); the value of the first
    word, else the second word, else nothing.  (An argument of blanks only looks up the empty name.) *)
@@ -134,10 +191,13 @@ Definition s_builtin (code : Z) (a : option (list byte)) (st : store) : bres * s
   else if code =? 1 then (BStr progver, st)
   else if code =? 4 then (s_get a st, st)
   else if code =? 5 then (BNull, s_put a st)
-  else match a with
-       | None => (BNull, st)
-       | Some _ => (BExt (if code =? 2 then Spawn else if code =? 3 then Random else Dirscan), st)
-       end.
+  else if code =? 2 then (s_exec a, st)
+  else if code =? 3 then
+    match a with
+    | None => (BNull, st)
+    | Some _ => (BExt Random, st)
+    end
+  else (s_dirscan a, st).
 
 (* ---------- the expansion ---------- *)
 Inductive stop : Type := StNull | StExt (e : ext).
